@@ -6,7 +6,7 @@ tests and all 17 quick checks are run against each. Every check must exit 0: an 
 a false alarm of the machinery or a refactoring that is not behaviour-preserving after all, and is
 looked at by hand. Nothing in /repo or /verif/evidence is touched.
 
-usage: tools/benign_sweep.py [--only benign-C01,benign-C02] [--out FILE]
+usage: tools/benign_sweep.py [--only benign-C01,benign-C02] [--checks C05,C14] [--out FILE]
 """
 import argparse, glob, json, os, shutil, subprocess, sys, time
 
@@ -26,6 +26,7 @@ def main():
     ap = argparse.ArgumentParser()
     ap.add_argument("--only", default="")
     ap.add_argument("--tier", default="quick")
+    ap.add_argument("--checks", default="", help="comma list of checks to run (default: all 17)")
     ap.add_argument("--out", default="/root/benign-sweep.json")
     ap.add_argument("--scratch", default="/tmp/verif-benign-%d" % os.getpid())
     a = ap.parse_args()
@@ -70,7 +71,7 @@ def main():
         res["repository_tests"] = "failed" if ("FAILED" in out or "error" in out) else "passed"
         t0 = time.time()
         alarms = []
-        for c in ALL:
+        for c in (a.checks.split(",") if a.checks else ALL):
             rc, out = sh(f"./check {c} {a.tier}", cwd=st, env=env, timeout=7200)
             last = out.strip().splitlines()[-1] if out.strip() else ""
             res["checks"][c] = {"exit": rc, "last": last[:200]}
